@@ -196,16 +196,30 @@ def segment_stmts(c, fnode):
 
     if not c.segment:
         return fnode.body
-    texts = [ast.unparse(s) for s in fnode.body]
-    start = [i for i, t in enumerate(texts) if t.startswith(c.segment['from'])]
-    if len(start) != 1:
-        raise LookupError(f'segment start `{c.segment["from"]}` matches {len(start)} statements')
+    # the anchors may sit at any depth (inside a try / with / if): the segment is a run of sibling statements of the
+    # block that contains the start anchor
+    hits = []
+    for parent in [fnode] + [n for n in ast.walk(fnode) if n is not fnode and not isinstance(n, (ast.FunctionDef, ast.AsyncFunctionDef, ast.Lambda, ast.ClassDef))]:
+        for field in ('body', 'orelse', 'finalbody'):
+            block = getattr(parent, field, None)
+            if not isinstance(block, list) or not block or not isinstance(block[0], ast.stmt):
+                continue
+            texts = [ast.unparse(st) for st in block]
+            for i, t in enumerate(texts):
+                if t.startswith(c.segment['from']):
+                    hits.append((block, texts, i))
+    top = [h for h in hits if h[0] is fnode.body]
+    if len(top) == 1:
+        hits = top  # a statement of the function body itself wins over a nested one with the same text
+    if len(hits) != 1:
+        raise LookupError(f'segment start `{c.segment["from"]}` matches {len(hits)} statements')
+    block, texts, i = hits[0]
     if c.segment.get('to') is None:
-        return fnode.body[start[0] :]
-    end = [i for i, t in enumerate(texts) if t.startswith(c.segment['to']) and i > start[0]]
+        return block[i:]
+    end = [j for j, t in enumerate(texts) if t.startswith(c.segment['to']) and j > i]
     if len(end) < 1:
-        raise LookupError(f'segment end `{c.segment["to"]}` not found')
-    return fnode.body[start[0] : end[0]]
+        raise LookupError(f'segment end `{c.segment["to"]}` not found after the start in the same block')
+    return block[i : end[0]]
 
 
 def _bind_siblings(reg, c, fr):
@@ -307,7 +321,15 @@ def check_outcome(it, c, fr, outcome, value):
     if outcome == 'return':
         fr.locs['result'] = value
         for k, cl in enumerate(c.ensures):
-            f = truthy(ctx, it.spec_eval(cl, fr))
+            try:
+                f = truthy(ctx, it.spec_eval(cl, fr))
+            except Unsupported as e:
+                # this clause cannot be evaluated in this end state (e.g. it dereferences a value another, refuted,
+                # clause says must exist): undecided for THIS clause only, so that refuted clauses still surface
+                ob = Obligation(f'post:{k}', 'post', f'{cl}  [not evaluable here: {e}]')
+                ob.status, ob.backend = 'undecided', 'not-evaluable'
+                ctx.obligations.append(ob)
+                continue
             ctx.oblige(f'post:{k}', 'post', f, cl)
         for k, case in enumerate(c.raises):
             if case.get('iff') is not None:
